@@ -7,7 +7,7 @@
 From MV Require Import Base Record Regex Typing Circle Annot Py.
 From Coq Require Import String Ascii.
 
-Open Scope Z_scope.
+Local Open Scope Z_scope.
 
 Notation word := (list letter).
 
@@ -278,3 +278,25 @@ Definition bio_CircularRecord_of (r : pyrecord) : exc pyrecord :=
               else Err XValueError
   | None => Ok (PR KCircularRecord (pr_seq r) (pr_id r) (pr_features r) None (pr_letter_annotations r))
   end.
+
+(* ---------- core/_utils.add_as_source, parts.characterize: their primitives ---------- *)
+
+(* the qualifiers of a generated source feature, interned: they name the plasmid *)
+Definition py_dict_organism_mol_type_plasmid_label (_ _ : string) (plasmid : nat) (_ : unit) : nat := 901 + plasmid.
+(* FeatureLocation(start, end) *)
+Definition mk_FeatureLocation2 (s e : Z) : pyloc := LSimple (P s e NoStrand).
+(* SeqFeature(location, type=, qualifiers=) *)
+Definition mk_SeqFeature3 (l : option pyloc) (t : string) (q : nat) : feature :=
+  F (String.eqb t "source") 0 q (loc_of_pyloc l).
+(* record.features.append(feature) *)
+Definition rec_append_feature (r : pyrecord) (f : feature) : pyrecord :=
+  PR (pr_kind r) (pr_seq r) (pr_id r) (pr_features r ++ [f]) (pr_annotations r) (pr_letter_annotations r).
+
+(* a class object as characterize sees it: its own description, whether it is abstract, its
+   direct subclasses in __subclasses__() order *)
+Inductive pyclass := PCL (c : cls) (abstract : bool) (subs : list pyclass).
+Definition pcl_cls (p : pyclass) : cls := match p with PCL c _ _ => c end.
+Definition pcl_isabstract (p : pyclass) : bool := match p with PCL _ a _ => a end.
+Definition pcl_subclasses (p : pyclass) : list pyclass := match p with PCL _ _ s => s end.
+(* subclass(record) *)
+Definition mk_entity (p : pyclass) (r : pyrecord) : entity := ENT 0 (pcl_cls p) r.
